@@ -31,6 +31,20 @@ def sh(cmd, timeout, mem_gb=12, cwd=None):
 RES = re.compile(r"^\[([^\]]+)\]\s+(.*?):\s+(SUCCESS|FAILURE|UNKNOWN|ERROR)\s*$", re.M)
 
 
+def annotate(failed, cfile):
+    """Attach the source line of the generated C (contract clause / statement) to each failed obligation."""
+    try:
+        lines = open(cfile).read().splitlines()
+    except OSError:
+        return [(i, t, "") for (i, t) in failed]
+    out = []
+    for (i, t) in failed:
+        m = re.match(r"line (\d+) ", t)
+        src = lines[int(m.group(1)) - 1].strip() if m and int(m.group(1)) <= len(lines) else ""
+        out.append((i, t, src))
+    return out
+
+
 def run(cfile, workdir, name, entry, enforce=None, replace=(), loop_contracts=False, unwind=None,
         checks=True, timeout=300, mem_gb=12, extra=(), defines=(), solver=(), unwindset=()):
     """Returns dict(status, obligations, discharged, failed[list of (id, text)], wall_s, log, cmd)."""
@@ -80,7 +94,7 @@ def run(cfile, workdir, name, entry, enforce=None, replace=(), loop_contracts=Fa
         reason = "timeout" if rc == -9 else ("out of memory" if "bad_alloc" in out or "Out of memory" in out else "cbmc error rc=%s" % rc)
         return dict(status="undecided", reason=reason, obligations=len(res), discharged=0, failed=[], wall_s=wall, log=log, cmd=cb)
     nfail, ntot = int(summary.group(1)), int(summary.group(2))
-    failed = [(i, t) for (i, t, s) in res if s == "FAILURE"]
+    failed = annotate([(i, t) for (i, t, s) in res if s == "FAILURE"], cfile)
     unknown = [(i, t) for (i, t, s) in res if s in ("UNKNOWN", "ERROR")]
     if ntot == 0:
         return dict(status="undecided", reason="zero obligations generated (vacuous)", obligations=0, discharged=0, failed=[], wall_s=wall, log=log, cmd=cb)
